@@ -87,7 +87,8 @@ def ensure_facts(verbose=True):
     try:
         if os.path.exists(marker):
             return fdir, th, {'reused': True, 'hash_s': round(time.time() - t0, 2), 'files_hashed': nfiles}
-        if not os.path.exists(DRIVER):
+        src = os.path.join(VERIF, 'driver', 'src', 'main.rs')
+        if not os.path.exists(DRIVER) or os.path.getmtime(src) > os.path.getmtime(DRIVER):
             build_driver()
         if os.path.isdir(fdir):
             shutil.rmtree(fdir)
